@@ -330,6 +330,10 @@ func (fr *Frame) enterLoop(h *ssa.BasicBlock, ins []edge, _ *State) *State {
 			}
 			i++
 		}
+		// H3: a loop-carried *T is nil or a T object: it lies in no region that cannot contain a T (see typedRefFact)
+		if tf := vc.typedRefFact(st, p.Type(), lc.phiVals[p]); tf != "true" {
+			facts = append(facts, tf)
+		}
 	}
 	for _, a := range lc.auto {
 		t := lc.phiVals[a.phi].(Scalar).T
